@@ -64,6 +64,32 @@ def _balanced(t):
     return d == 0
 
 
+def implied_atoms(sk, val):
+    """[(atom, truth)] that a decision skeleton taking the value `val` implies (conjunctions that hold, disjunctions that fail)."""
+    if sk is None:
+        return []
+    if sk[0] == 'not':
+        return implied_atoms(sk[1], not val)
+    if sk[0] == 'and':
+        return [x for part in sk[1] for x in implied_atoms(part, True)] if val else []
+    if sk[0] == 'or':
+        return [] if val else [x for part in sk[1] for x in implied_atoms(part, False)]
+    return [(sk, val)]
+
+
+def _lf_free_as_canonical(s):
+    """Items of the returned term in which a document the path has decided to contain no LF octet stands as its own canonical form:
+    without a line feed there is no line ending, so CANON(DOC) == DOC (a fast path that skips the substitution)."""
+    lf_free = set()
+    for t, val, sk in s.facts:
+        for a, truth in implied_atoms(sk, val):
+            if a[0] == 'cmp' and a[2] == 'C(0a)' and ((a[1] == 'not in' and truth) or (a[1] == 'in' and not truth)):
+                lf_free.add(a[3])
+    if not lf_free:
+        return s.ret.items
+    return [('SYM', 're.sub(C(5c723f5c6e), C(0d0a), %s)' % it[1]) if it[0] == 'SYM' and it[1] in lf_free else it for it in s.ret.items]
+
+
 def canon_pred(doc_aliases):
     """CANON(DOC): every line ending of DOC converted to CR LF (RFC 4880 5.2.4 / 7.1), decided on the regex AST."""
     def p(item):
@@ -219,7 +245,7 @@ def check_hashdata(rep, prog, rid, only_types=None):
             if r in seen:
                 continue
             seen.add(r)
-            ok, roles, msg, exp = match_any(s.ret.items, builder, role_aliases)
+            ok, roles, msg, exp = match_any(_lf_free_as_canonical(s), builder, role_aliases)
             n += 1
             if ok:
                 rep.ok(rid, 'PGPSignature.hashdata', {'found': r, 'template': exp}, scenario=name)
